@@ -8,7 +8,7 @@ from ..engine import Fail, Stratum
 from .. import exact as X, bridge as B, gen, admit as A
 
 ID = "C11"
-USE_WITNESS = True
+WITNESS = ()
 RULE = (
     "direction pairs (u, v) on the integer lattice built by relation recipe: parallel(k), antiparallel(k) for "
     "k in {1,2,3,1/2,5}, exactly perpendicular (cross-product construction), generic; wrapped as Line/Line, "
